@@ -49,3 +49,15 @@ def cps(s):
 
 def uncps(v):
     return "".join(chr(c) for c in v)
+
+
+def build_bins(pkgs, profile="dev"):
+    cmd = ["cargo", "build", "--offline", "-q"]
+    for p in pkgs:
+        cmd += ["-p", p]
+    sub = "debug"
+    if profile != "dev":
+        cmd += ["--profile", profile]
+        sub = profile
+    p = sh(cmd, cwd=HARNESS, env=cargo_env(), check=False)
+    return p, {k: os.path.join(TARGET, sub, k) for k in pkgs}
